@@ -552,9 +552,11 @@ func c01Request(ctx *core.Ctx, r *RT, req *ssa.Function, R4, R5 string) {
 					}
 				case *ssa.DebugRef:
 				case ssa.CallInstruction:
-					if x != rc.Instr {
+					if x != rc.Instr && !recvOnlyHelperCall(r, x, ch, 0) {
 						esc = "passed to " + x.String()
 					}
+				case *ssa.ChangeType:
+					// chan → <-chan conversion for a receive-only helper
 				default:
 					esc = u.String()
 				}
@@ -706,7 +708,7 @@ func c01NatsSubject(ctx *core.Ctx, r *RT) {
 		return
 	}
 	for _, c := range ssax.CallsTo(req, "(*github.com/nats-io/nats.go.Conn).PublishRequest") {
-		reply := c.Common.Args[2]
+		reply, back := ThroughCall(r, c.Common.Args[2]) // the subject may be built by a small helper
 		ok := false
 		if sc, ok1 := CallValue(reply); ok1 && sc.FullName() == "fmt.Sprintf" {
 			if f, ok2 := ConstString(sc.Common.Args[0]); ok2 && f == "%s.%d" {
@@ -714,7 +716,11 @@ func c01NatsSubject(ctx *core.Ctx, r *RT) {
 				if len(va) == 2 {
 					_, isInbox := LoadedFrom(va[0], "inbox")
 					isOpid := false
-					if tup, ok3 := ExtractOf(va[1], 0); ok3 {
+					opv := va[1]
+					if mi, isMI := opv.(*ssa.MakeInterface); isMI {
+						opv = mi.X
+					}
+					if tup, ok3 := ExtractOf(back(opv), 0); ok3 {
 						if gc, ok4 := CallValue(tup); ok4 && gc.ShortName() == "getOpID" && gc.Static != nil && gc.Static.Pkg == r.Pkg {
 							isOpid = IsParam(gc.Common.Args[0], req, 1)
 						}
@@ -903,4 +909,54 @@ func undeliverableNotError(ctx *core.Ctx, r *RT, rule string, delivery *ssa.Func
 				"non-nil results: getHeadersFromFrame / ParseUint error, or the delivery result", "Execute returns an error that is not a malformed-frame error at "+bad+"; reader loops close the transport on it")
 		}
 	}
+}
+
+// recvOnlyHelperCall: the call hands `ch` to a function of the package that only
+// receives from the corresponding parameter (directly or through another such
+// helper) — the waiting half of a Request extracted into a function.
+func recvOnlyHelperCall(r *RT, call ssa.CallInstruction, ch ssa.Value, depth int) bool {
+	if depth > 2 {
+		return false
+	}
+	if _, isGo := call.(*ssa.Go); isGo {
+		return false
+	}
+	g := call.Common().StaticCallee()
+	if g == nil || g.Pkg != r.Pkg || len(g.Blocks) == 0 {
+		return false
+	}
+	args := call.Common().Args
+	ok := false
+	for i, a := range args {
+		av := ssax.Strip(a)
+		if ct, isCT := av.(*ssa.ChangeType); isCT {
+			av = ssax.Strip(ct.X)
+		}
+		if av != ssax.Strip(ch) || i >= len(g.Params) {
+			continue
+		}
+		ok = true
+		for _, u := range ssax.UsesTransitive(g.Params[i]) {
+			switch x := u.(type) {
+			case *ssa.Select:
+				for _, st := range x.States {
+					if ssax.Strip(st.Chan) == ssa.Value(g.Params[i]) && st.Dir != types.RecvOnly {
+						return false
+					}
+				}
+			case *ssa.UnOp:
+				if x.Op != token.ARROW {
+					return false
+				}
+			case *ssa.DebugRef, *ssa.ChangeType:
+			case ssa.CallInstruction:
+				if !recvOnlyHelperCall(r, x, g.Params[i], depth+1) {
+					return false
+				}
+			default:
+				return false
+			}
+		}
+	}
+	return ok
 }
